@@ -212,6 +212,9 @@ func GenAction(t *rapid.T, p *Profile, cfg *Config, ops []string) Action {
 		if rapid.IntRange(0, 2).Draw(t, "late") == 0 {
 			a.Dur = genDur(t, p, "latedur")
 		}
+		if rapid.IntRange(0, 3).Draw(t, "early") == 0 {
+			a.D = rapid.IntRange(1, 3).Draw(t, "stopafter")
+		}
 	case "setmaximum":
 		a.N = rapid.IntRange(0, 12).Draw(t, "newmax")
 	case "advance":
